@@ -914,6 +914,8 @@ func CheckC12(h *History) (out []Violation) {
 	}
 	notify := map[string]string{} // supi -> registered notify URI
 	known := map[string]bool{}
+	liveRef := map[string]string{}   // reference -> name of the open session it was issued for
+	refOfSess := map[string]string{} // session name -> its reference
 	type owedNotif struct {
 		op   *OpResult
 		url  string
@@ -1002,6 +1004,13 @@ func CheckC12(h *History) (out []Violation) {
 				v.add("C12", "echo", "op=create", op.ID, "create op %d: response does not echo invocationSequenceNumber %d: %s", op.ID, o.ISN, o.RespBody)
 				return v.list
 			}
+			// "the new session reference": not the reference of a session that is still open
+			if other, dup := liveRef[o.Ref]; dup {
+				v.add("C12", "location", "not-new", op.ID, "create op %d (session %s): Location %q ends in the reference of session %s, which is still open", op.ID, op.Sess, o.Location, other)
+				return v.list
+			}
+			liveRef[o.Ref] = op.Sess
+			refOfSess[op.Sess] = o.Ref
 			notify[op.Supi] = uri
 			known[op.Supi] = true
 		case "update":
@@ -1027,6 +1036,7 @@ func CheckC12(h *History) (out []Violation) {
 					v.add("C12", "release-body", "", op.ID, "release op %d answered with a body: %s", op.ID, o.RespBody)
 					return v.list
 				}
+				delete(liveRef, refOfSess[op.Sess])
 				continue
 			}
 			// names an unknown subscriber or an unknown / foreign reference
